@@ -1,9 +1,12 @@
 """C08 - driver-event broadcast: events arrive in order, intact; any loss is reported."""
+import hashlib
+import json
+
 from vlib.term import z, to_coq
 
 ID = 'C08'
 PROP_FILE = 'Props/C08.v'
-EVAL_FILES = ['Oracle/C08Oracle.v']
+EVAL_FILES = ['Oracle/C08Oracle.v', 'Proofs/BroadcastThreadsProofs.v']
 CRATES = ['c08']
 MODES = ['debug', 'release']
 IMPORTS = ('Require Import V.Base.MachineInt V.Model.LogBase V.Model.Broadcast V.Model.BroadcastThreads V.Model.BroadcastShow V.Spec.Lossy V.Oracle.C08Oracle.')
@@ -146,11 +149,12 @@ def _conc_configs(rng, big):
         mx = cap // 8
         for c0 in (0, 2**31 - cap, 2**31 - 8, 2**40 + 8 * rng.randrange(0, cap // 8)):
             for variant in range(3 if big else 2):
+                tys = rng.sample(LEGAL, len(LEGAL))   # distinct types: an empty payload must not make two messages identical
                 pre = []
                 if variant == 1:
-                    pre = [[rng.choice(LEGAL), 900 + i, rng.randrange(0, mx + 1)] for i in range(rng.randrange(1, 4))]
+                    pre = [[tys.pop(), 900 + i, rng.randrange(0, mx + 1)] for i in range(rng.randrange(1, 4))]
                 nmsg = rng.randrange(3, 7) if cap == 32 else rng.randrange(5, 9)
-                msgs = [[rng.choice(LEGAL), 10 + i, rng.choice([mx, mx, rng.randrange(0, mx + 1)])] for i in range(nmsg)]
+                msgs = [[tys.pop(), 10 + i, rng.choice([mx, mx, rng.randrange(0, mx + 1)])] for i in range(nmsg)]
                 cfgs.append((cap, c0, pre, msgs, rng.randrange(2, 5)))
     return cfgs
 
@@ -174,8 +178,8 @@ def _conc_cases(rng, big):
             for a in range(1, nr, 2):
                 for b in range(1, nt, 2):
                     scheds.append([1] * a + [0] * b + [1] * nr)
-        # random schedules with bursts
-        for _ in range(40 if big else 12):
+        # random schedules with bursts (many pre-emptions)
+        for _ in range(120 if big else 12):
             sc = []
             while len(sc) < nt + nr:
                 sc += [rng.randrange(0, 2)] * rng.choice([1, 1, 2, 3, 5, 8, 13])
@@ -303,6 +307,27 @@ def oracle_expr(c, mode, obs):
             return 'false'
         return 'holds_conc %s %s %s %s' % (z(c['cap']), _msgs_coq(c['pre']), _msgs_coq(c['msgs']), to_coq(obs))
     raise ValueError(c)
+
+
+_KC_CACHE = {}
+
+
+def known_class(c, mode, obs):
+    """lap-inside-receive-next: a receive_next committed a cursor that is not the position of a record of the stream
+    (ghost flag g_ok of Proofs/BroadcastThreadsProofs.v is false on this schedule) - exactly the runs C08_seqlock_partial excludes."""
+    if c.get('kind') != 'conc':
+        return None
+    key = (json.dumps(c, sort_keys=True), mode)
+    if key not in _KC_CACHE:
+        from vlib import core
+        fuel = 11 * (len(c['msgs']) + c['nrecv']) + 11
+        e = ('g_ok (grun %s %s true (ginit %s %s %s %s %d%%nat) (%s ++ repeat 0 %d%%nat ++ repeat 1 %d%%nat))' % (
+            z(c['cap']), mode_c(mode), z(c['cap']), z(c['c0']), _msgs_coq(c['pre']), _msgs_coq(c['msgs']), c['nrecv'],
+            '[' + '; '.join(str(t) for t in c['sched']) + ']', fuel, fuel))
+        tag = 'C08_kc_%s' % hashlib.sha1(key[0].encode()).hexdigest()[:12]
+        v = core.coq_eval(tag, IMPORTS + ' Require Import V.Proofs.BroadcastThreadsProofs.', [e])
+        _KC_CACHE[key] = (v[0] == ('app', 'false', []))
+    return 'lap-inside-receive-next' if _KC_CACHE[key] else None
 
 
 def nontrivial(c):
